@@ -314,7 +314,17 @@ func checkC18(c *Ctx) {
 				return "a validator reported an error but Validate returns nil"
 			}
 			if !failed {
-				if t.Ret[0].K != ANil {
+				// `return c.validateLast()`: the last validator's own verdict is handed on unexamined —
+				// nil exactly when it succeeded
+				tail := false
+				if ret, ok := t.RetInstr.(*ssa.Return); ok && len(ret.Results) == 1 {
+					if call, isCall := ret.Results[0].(*ssa.Call); isCall {
+						if f := StaticFn(call); f != nil && strings.HasPrefix(f.Name(), "validate") {
+							tail = true
+						}
+					}
+				}
+				if t.Ret[0].K != ANil && !tail {
 					return "Validate fails although every validator succeeded"
 				}
 				for _, v := range validators {
